@@ -6,6 +6,7 @@ export CARGO_NET_OFFLINE=true
 mkdir -p work evidence
 python3 tools/gen_codepoints.py /repo lean/Rc/Gen/Codepoints.lean work/codepoint_fingerprints.json || true
 python3 tools/gen_wellknown.py /repo lean/Rc/Gen/Wellknown.lean || true
+python3 tools/gen_codepoints.py @check - --attr-flags lean/Rc/Gen/AttrFlags.lean --constants lean/Rc/Gen/Constants.lean || true
 (cd lean && lake build Rc rcdriver)
 (cd harness && cargo build)
 echo setup done
